@@ -117,6 +117,20 @@ Theorem c04_literal_execute_escaped_name_refuted :
 Proof. split; [vm_compute; reflexivity|]. intros []; vm_compute; reflexivity. Qed.
 Print Assumptions c04_literal_execute_escaped_name_refuted.
 
+(* two BindParameter objects share the name "p" and only the second is literal_execute: the first occurrence
+   keeps its placeholder but its value is removed from the parameters (numeric even renders an empty string),
+   so no driver can bind the statement *)
+Theorem c04_mixed_literal_execute_refuted :
+  guard sa_tab w_mix = false /\
+  inline_spec lit_dec empty0 w_mix = Some [Val 3; Ch 32; Ch 65; Ch 78; Ch 68; Ch 32; Ch 51] /\
+  (forall ps, numeric ps = false -> delivered ps w_mix = Ok None) /\
+  (forall ps, numeric ps = true -> delivered ps w_mix = Ok (Some [Ch 32; Ch 65; Ch 78; Ch 68; Ch 32; Ch 51])).
+Proof.
+  split; [vm_compute; reflexivity|]. split; [vm_compute; reflexivity|].
+  split; intros [] H; try discriminate H; vm_compute; reflexivity.
+Qed.
+Print Assumptions c04_mixed_literal_execute_refuted.
+
 (* ---- the hypotheses are satisfiable: a statement with an escaped name used twice, two expanding binds (one
    empty), a literal_execute bind, a percent sign and the insertmanyvalues ordering of numeric ---- *)
 Example c04_ex_guard : guard sa_tab ex_good = true.
